@@ -229,4 +229,4 @@ def replay(case):
 def shard(ctx: Ctx):
     quick = ctx.tier == 'quick'
     sizes = gen.Sizes(tables=4, columns=3, indexes=1, enums=2, items=2, refs=3, groups=1, stickies=1, props=1)
-    hyp_run(ctx, 'faulty', faulty(strict_features(), sizes), lambda c: evaluate(c, ctx), 150 if quick else 4000)
+    hyp_run(ctx, 'faulty', faulty(strict_features(), sizes), lambda c: evaluate(c, ctx), 150 if quick else 1500)
